@@ -755,6 +755,8 @@ def gen_invert(rng):
 def gen_generator(rng):
     x = 5
     f = rng.choice(["BAny", "BAll", "BSum", "BMin", "BMax", "BAny", "BAll"])
+    if rng.random() < 0.1:      # builtins the codemod must leave alone
+        f = rng.choice(["BLen", "BSet", "BCallable"])
     it = rng.choice([("EList", [I(rng.choice(INTS)) for _ in range(rng.randint(0, 4))]), N(rng.randrange(8)),
                      ("ETuple", [I(rng.choice(INTS)) for _ in range(rng.randint(0, 3))]),
                      ("ESet", [I(rng.randrange(4)) for _ in range(rng.randint(1, 3))])])
